@@ -24,16 +24,29 @@ theorem childIndexAtLevel_last (P : PageId) (h : P ≠ []) : ∃ ci, childIndexA
 theorem storeElided_nodes (sp : StackPage Node) : (storeElided sp).page.nodes = sp.page.nodes := by
   unfold storeElided; split <;> rfl
 
+theorem totalDiff_changed (sp : StackPage Node) (i : Nat) (h : sp.diff.changed i = true) :
+    sp.totalDiff.changed i = true := by
+  unfold StackPage.totalDiff
+  cases sp.reconDiff with
+  | none => exact h
+  | some d => simp only; rw [PageDiff.changed_join, h]; simp
+
 theorem pushUpdated_outs (w0 w1 : Walker Node) (sp sp2 : StackPage Node) (hout : w1.outputPages = w0.outputPages)
-    (hid : sp2.pageId = sp.pageId) (hn : sp2.page.nodes = sp.page.nodes) :
+    (hid : sp2.pageId = sp.pageId) (hn : sp2.page.nodes = sp.page.nodes)
+    (hdf : ∀ i, sp.diff.changed i = true → sp2.diff.changed i = true) :
     ∀ o ∈ (pushUpdated w1 sp2).outputPages, o ∈ w0.outputPages ∨
-      ∃ pg d b, pg.nodes = sp.page.nodes ∧ o = .updated sp.pageId pg d b := by
+      ∃ pg d b, pg.nodes = sp.page.nodes ∧ o = .updated sp.pageId pg d b ∧
+        ∀ i, sp.diff.changed i = true → d.changed i = true := by
   intro o ho
   unfold pushUpdated at ho
   simp only [List.mem_append, List.mem_singleton] at ho
   rcases ho with h | h
   · left; rw [← hout]; exact h
-  · right; exact ⟨sp2.page, _, _, hn, by rw [h, hid]⟩
+  · right
+    exact ⟨sp2.page, _, _, hn, by rw [h, hid], fun i hi => totalDiff_changed sp2 i (hdf i hi)⟩
+
+theorem storeElided_diff (sp : StackPage Node) : (storeElided sp).diff = sp.diff := by
+  unfold storeElided; split <;> rfl
 
 theorem storeElided_fields (sp : StackPage Node) :
     (storeElided sp).pageId = sp.pageId ∧ (storeElided sp).childrenLeaves = sp.childrenLeaves ∧
@@ -44,16 +57,16 @@ theorem storeElided_fields (sp : StackPage Node) :
 theorem elideParentCounter_ok (sp parent : StackPage Node) (plc clc : Nat)
     (hsp : sp.prevChildrenLeaves = some 0 ∧ sp.pageLeaves = some 0) (hcp : CountersOK parent) :
     ∃ parent2, elideParentCounter sp parent plc clc = .ok parent2 ∧ parent2.pageId = parent.pageId ∧
-      parent2.page = parent.page ∧ CountersOK parent2 := by
+      parent2.page = parent.page ∧ CountersOK parent2 ∧ parent2.diff = parent.diff := by
   unfold elideParentCounter
   cases hpo : parent.childrenLeaves.or parent.prevChildrenLeaves with
-  | none => exact ⟨parent, rfl, rfl, rfl, hcp⟩
+  | none => exact ⟨parent, rfl, rfl, rfl, hcp, rfl⟩
   | some pclc =>
     simp only
     rw [hsp.1, hsp.2]
     simp only [Option.getD_some]
     rw [if_neg (by omega)]
-    refine ⟨_, rfl, rfl, rfl, ?_⟩
+    refine ⟨_, rfl, rfl, rfl, ?_, rfl⟩
     rcases hcp with ⟨h1, h2⟩ | h
     · rw [h1, h2] at hpo; cases hpo
     · exact Or.inr h
@@ -66,10 +79,12 @@ theorem handleElision_spec (w : Walker Node) (sp : StackPage Node) (below : List
     ∃ w', w.handleElision H = .ok w' ∧ Same w w' ∧ w'.position = w.position ∧ w'.root = w.root ∧
       w'.childPageRoots = w.childPageRoots ∧
       (∀ o ∈ w'.outputPages, o ∈ w.outputPages ∨
-        ∃ pg d b, pg.nodes = sp.page.nodes ∧ o = .updated sp.pageId pg d b) ∧
+        ∃ pg d b, pg.nodes = sp.page.nodes ∧ o = .updated sp.pageId pg d b ∧
+          ∀ i, sp.diff.changed i = true → d.changed i = true) ∧
       ((below = [] ∧ w'.stack = []) ∨
        (∃ parent rest parent', below = parent :: rest ∧ w'.stack = parent' :: rest ∧
-          parent'.pageId = parent.pageId ∧ parent'.page = parent.page ∧ CountersOK parent')) := by
+          parent'.pageId = parent.pageId ∧ parent'.page = parent.page ∧ CountersOK parent' ∧
+          parent'.diff = parent.diff)) := by
   unfold Walker.handleElision
   rw [hst]
   simp only
@@ -80,7 +95,7 @@ theorem handleElision_spec (w : Walker Node) (sp : StackPage Node) (below : List
     simp only
     rw [pushOut_ok _ _ (by exact hrec)]
     exact ⟨_, rfl, Same.rfl' _, rfl, rfl, rfl,
-      pushUpdated_outs w _ sp _ rfl hid (storeElided_nodes sp), Or.inl ⟨trivial, rfl⟩⟩
+      pushUpdated_outs w _ sp _ rfl hid (storeElided_nodes sp) (by intro i hi; rw [storeElided_diff]; exact hi), Or.inl ⟨trivial, rfl⟩⟩
   | cons parent rest =>
     simp only
     have hcp : CountersOK parent := hc parent (by rw [hst]; simp)
@@ -89,25 +104,26 @@ theorem handleElision_spec (w : Walker Node) (sp : StackPage Node) (below : List
     have hkeep : ∃ w', keepPage ({ w with stack := parent :: rest } : Walker Node) (storeElided sp) parent rest = .ok w' ∧
         Same w w' ∧ w'.position = w.position ∧ w'.root = w.root ∧ w'.childPageRoots = w.childPageRoots ∧
         (∀ o ∈ w'.outputPages, o ∈ w.outputPages ∨
-          ∃ pg d b, pg.nodes = sp.page.nodes ∧ o = .updated sp.pageId pg d b) ∧
+          ∃ pg d b, pg.nodes = sp.page.nodes ∧ o = .updated sp.pageId pg d b ∧
+            ∀ i, sp.diff.changed i = true → d.changed i = true) ∧
         ∃ parent', w'.stack = parent' :: rest ∧ parent'.pageId = parent.pageId ∧ parent'.page = parent.page ∧
-          CountersOK parent' := by
+          CountersOK parent' ∧ parent'.diff = parent.diff := by
       unfold keepPage
       rw [hci]
       simp only
       rw [pushOut_ok _ _ (by exact hrec)]
-      exact ⟨_, rfl, Same.rfl' _, rfl, rfl, rfl, pushUpdated_outs w _ sp _ rfl hid (storeElided_nodes sp),
-        _, rfl, rfl, rfl, Or.inl ⟨rfl, rfl⟩⟩
+      exact ⟨_, rfl, Same.rfl' _, rfl, rfl, rfl, pushUpdated_outs w _ sp _ rfl hid (storeElided_nodes sp) (by intro i hi; rw [storeElided_diff]; exact hi),
+        _, rfl, rfl, rfl, Or.inl ⟨rfl, rfl⟩, rfl⟩
     by_cases hroot : parentPageId (storeElided sp).pageId = []
     · rw [if_pos hroot, pushOut_ok _ _ (by exact hrec)]
-      exact ⟨_, rfl, Same.rfl' _, rfl, rfl, rfl, pushUpdated_outs w _ sp _ rfl hid (storeElided_nodes sp),
-        Or.inr ⟨parent, rest, parent, rfl, rfl, rfl, rfl, hcp⟩⟩
+      exact ⟨_, rfl, Same.rfl' _, rfl, rfl, rfl, pushUpdated_outs w _ sp _ rfl hid (storeElided_nodes sp) (by intro i hi; rw [storeElided_diff]; exact hi),
+        Or.inr ⟨parent, rest, parent, rfl, rfl, rfl, rfl, hcp, rfl⟩⟩
     · rw [if_neg hroot]
       cases hor : (storeElided sp).childrenLeaves.or (storeElided sp).prevChildrenLeaves with
       | none =>
         simp only
-        obtain ⟨w', h1, h2, h3, h4, h5, ho, p', h6, h7, h8, h9⟩ := hkeep
-        exact ⟨w', h1, h2, h3, h4, h5, ho, Or.inr ⟨parent, rest, p', rfl, h6, h7, h8, h9⟩⟩
+        obtain ⟨w', h1, h2, h3, h4, h5, ho, p', h6, h7, h8, h9, h10⟩ := hkeep
+        exact ⟨w', h1, h2, h3, h4, h5, ho, Or.inr ⟨parent, rest, p', rfl, h6, h7, h8, h9, h10⟩⟩
       | some clc =>
         simp only
         split
@@ -117,7 +133,7 @@ theorem handleElision_spec (w : Walker Node) (sp : StackPage Node) (below : List
             rcases hcsp with ⟨h1, h2⟩ | h
             · rw [hcl, hpcl, h1, h2] at hor; cases hor
             · exact h
-          obtain ⟨parent2, hp2, hp2id, hp2pg, hp2c⟩ :=
+          obtain ⟨parent2, hp2, hp2id, hp2pg, hp2c, hp2d⟩ :=
             elideParentCounter_ok (storeElided sp) parent (countLeaves H (storeElided sp).page) clc hsp2 hcp
           unfold elidePage
           rw [hp2]
@@ -132,12 +148,12 @@ theorem handleElision_spec (w : Walker Node) (sp : StackPage Node) (below : List
             · exact Or.inr h
           split
           · exact ⟨_, rfl, ⟨rfl, rfl, rfl, rfl, hrec.symm⟩, rfl, rfl, rfl,
-              pushUpdated_outs w _ sp _ rfl hid (storeElided_nodes sp),
-              Or.inr ⟨parent, rest, _, rfl, rfl, hp2id, hp2pg, hc3⟩⟩
+              pushUpdated_outs w _ sp _ rfl hid (storeElided_nodes sp) (by intro i hi; show ((storeElided sp).diff.setCleared).changed i = true; rw [PageDiff.changed_setCleared, storeElided_diff, hi]; rfl),
+              Or.inr ⟨parent, rest, _, rfl, rfl, hp2id, hp2pg, hc3, hp2d⟩⟩
           · exact ⟨_, rfl, ⟨rfl, rfl, rfl, rfl, hrec.symm⟩, rfl, rfl, rfl, fun o ho => Or.inl ho,
-              Or.inr ⟨parent, rest, _, rfl, rfl, hp2id, hp2pg, hc3⟩⟩
-        · obtain ⟨w', h1, h2, h3, h4, h5, ho, p', h6, h7, h8, h9⟩ := hkeep
-          exact ⟨w', h1, h2, h3, h4, h5, ho, Or.inr ⟨parent, rest, p', rfl, h6, h7, h8, h9⟩⟩
+              Or.inr ⟨parent, rest, _, rfl, rfl, hp2id, hp2pg, hc3, hp2d⟩⟩
+        · obtain ⟨w', h1, h2, h3, h4, h5, ho, p', h6, h7, h8, h9, h10⟩ := hkeep
+          exact ⟨w', h1, h2, h3, h4, h5, ho, Or.inr ⟨parent, rest, p', rfl, h6, h7, h8, h9, h10⟩⟩
 
 /-! ## pages of neighbouring positions -/
 
@@ -209,10 +225,11 @@ theorem sim_up {w : Walker Node} {a : TW Node} (h : Sim H ps w a) (hd : 6 * k0 w
       rw [htop, hxb]; exact specPage_first_layer_length x b h6
     refine ⟨hp'wf, by rw [hp'a, hposup], by rw [hroot1, hstoreup]; exact h.root, ?_, ?_, ?_, ?_, ?_,
       by show w1.reconstruction = false; rw [hsame.2.2.2.2]; exact h.norecon,
-      by show w1.childPageRoots.map _ = _; rw [hcpr1, hcprup]; exact h.cpr, ?_⟩
+      by show w1.childPageRoots.map _ = _; rw [hcpr1, hcprup]; exact h.cpr, ?_,
+      by show w1.preFix = false; rw [hsame.2.2.2.1]; exact h.nofix, ?_⟩
     · -- empty iff at the top layer
       rw [hsame.1, hposup, hxl]
-      rcases hstack1 with ⟨hb, hs⟩ | ⟨parent, rest, parent', hb, hs, _, _, _⟩
+      rcases hstack1 with ⟨hb, hs⟩ | ⟨parent, rest, parent', hb, hs, _, _, _, _⟩
       · rw [hs]
         simp only [true_iff]
         rw [hb] at htoplen; simp at htoplen
@@ -222,7 +239,7 @@ theorem sim_up {w : Walker Node} {a : TW Node} (h : Sim H ps w a) (hd : 6 * k0 w
         rw [hb] at htoplen; simp at htoplen
         omega
     · intro sp rest' e
-      rcases hstack1 with ⟨_, hs⟩ | ⟨parent, rest, parent', hb, hs, hpid, _, _⟩
+      rcases hstack1 with ⟨_, hs⟩ | ⟨parent, rest, parent', hb, hs, hpid, _, _, _⟩
       · rw [hs] at e; cases e
       · rw [hs] at e
         simp only [List.cons.injEq] at e
@@ -232,7 +249,7 @@ theorem sim_up {w : Walker Node} {a : TW Node} (h : Sim H ps w a) (hd : 6 * k0 w
         rw [hchain.2.1, htop, hxb]
         exact specPage_dropLast_first_layer x b h6
     · rw [hsame.1]
-      rcases hstack1 with ⟨_, hs⟩ | ⟨parent, rest, parent', hb, hs, hpid, _, _⟩
+      rcases hstack1 with ⟨_, hs⟩ | ⟨parent, rest, parent', hb, hs, hpid, _, _, _⟩
       · rw [hs]; trivial
       · rw [hs]
         have := chain_tail w.parentPage top.pageId (below.map (·.pageId)) hchain
@@ -240,7 +257,7 @@ theorem sim_up {w : Walker Node} {a : TW Node} (h : Sim H ps w a) (hd : 6 * k0 w
         simpa [hpid] using this
     · intro sp hsp
       rw [hstoreup]
-      rcases hstack1 with ⟨_, hs⟩ | ⟨parent, rest, parent', hb, hs, hpid, hpg, _⟩
+      rcases hstack1 with ⟨_, hs⟩ | ⟨parent, rest, parent', hb, hs, hpid, hpg, _, _⟩
       · rw [hs] at hsp; cases hsp
       · rw [hs] at hsp
         rcases List.mem_cons.mp hsp with e | hsp'
@@ -250,7 +267,7 @@ theorem sim_up {w : Walker Node} {a : TW Node} (h : Sim H ps w a) (hd : 6 * k0 w
           rw [hpg, hpid]; exact this
         · exact h.pages sp (by rw [hst, hb]; simp [hsp'])
     · intro sp hsp
-      rcases hstack1 with ⟨_, hs⟩ | ⟨parent, rest, parent', hb, hs, _, _, hcnt⟩
+      rcases hstack1 with ⟨_, hs⟩ | ⟨parent, rest, parent', hb, hs, _, _, hcnt, _⟩
       · rw [hs] at hsp; cases hsp
       · rw [hs] at hsp
         rcases List.mem_cons.mp hsp with e | hsp'
@@ -260,13 +277,27 @@ theorem sim_up {w : Walker Node} {a : TW Node} (h : Sim H ps w a) (hd : 6 * k0 w
       intro o ho
       have hlogup : a.up.log = a.log ++ [(specPage a.pos, a.store)] := by
         unfold TW.up; rw [if_pos h1]
-      rcases houts1 o ho with hold | ⟨pg, d, b', hpgn, ho'⟩
-      · obtain ⟨P, pg, d, b', st, e1, e2, e3, e4⟩ := h.outs o hold
-        exact ⟨P, pg, d, b', st, e1, by rw [hlogup]; exact List.mem_append_left _ e2, e3, e4⟩
+      rcases houts1 o ho with hold | ⟨pg, d, b', hpgn, ho', hdch⟩
+      · obtain ⟨P, pg, d, b', st, e1, e2, e3, e4, e5⟩ := h.outs o hold
+        exact ⟨P, pg, d, b', st, e1, by rw [hlogup]; exact List.mem_append_left _ e2, e3, e4, e5⟩
       · obtain ⟨hl126, hm⟩ := h.pages top (by rw [hst]; simp)
-        refine ⟨top.pageId, pg, d, b', a.store, ho', by rw [hlogup, htop]; simp, by rw [hpgn]; exact hl126, ?_⟩
-        intro q hq hql hqp
-        rw [hpgn]; exact hm q hq hql hqp
+        obtain ⟨base, hbase, hdn⟩ := h.diffs top (by rw [hst]; simp)
+        refine ⟨top.pageId, pg, d, b', a.store, ho', by rw [hlogup, htop]; simp, by rw [hpgn]; exact hl126, ?_,
+          base, hbase, ?_⟩
+        · intro q hq hql hqp
+          rw [hpgn]; exact hm q hq hql hqp
+        · intro i hi hne
+          rw [hpgn] at hne
+          exact hdch i (hdn i hi hne)
+    · intro sp hsp
+      rcases hstack1 with ⟨_, hs⟩ | ⟨parent, rest, parent', hb, hs, hpid, hpg, _, hpdf⟩
+      · rw [hs] at hsp; cases hsp
+      · rw [hs] at hsp
+        rcases List.mem_cons.mp hsp with e | hsp'
+        · obtain ⟨base, hbase, hdn⟩ := h.diffs parent (by rw [hst, hb]; simp)
+          rw [e]
+          exact ⟨base, by rw [hpid]; exact hbase, by rw [hpg, hpdf]; exact hdn⟩
+        · exact h.diffs sp (by rw [hst, hb]; simp [hsp'])
   · -- staying in the page
     rw [hdip, if_neg h1]
     simp only
@@ -278,7 +309,7 @@ theorem sim_up {w : Walker Node} {a : TW Node} (h : Sim H ps w a) (hd : 6 * k0 w
     have hposup' : a.up.pos = x := by rw [hposup, hxl]
     have hlogup : a.up.log = a.log := by unfold TW.up; rw [if_neg h1]
     refine ⟨hp'wf, by rw [hp'a, hposup], by rw [hstoreup]; exact h.root, ?_, ?_, h.chain, ?_, h.counters,
-      h.norecon, by rw [hcprup]; exact h.cpr, by rw [hlogup]; exact h.outs⟩
+      h.norecon, by rw [hcprup]; exact h.cpr, by rw [hlogup]; exact h.outs, h.nofix, h.diffs⟩
     · show w.stack = [] ↔ _
       rw [hst, hposup']
       simp only [false_iff, reduceCtorEq]
@@ -299,6 +330,12 @@ theorem fresh_page_matches (hfresh : ∀ P, (ps.fresh P).length = 126) (parent :
   unfold havoc
   rw [if_pos ⟨hq, hqp⟩]
   simp only [cfgOf, PageSet.freshPage, hqp]
+
+theorem fresh_page_diffok (P : PageId) :
+    DiffOK H ps (StackPage.new P (ps.freshPage P) PageDiff.empty freshOrigin) := by
+  refine ⟨ps.fresh P, Or.inl rfl, ?_⟩
+  intro i _ hne
+  exact absurd rfl hne
 
 theorem fresh_page_counters (P : PageId) (pg : Page Node) :
     CountersOK (StackPage.new P pg PageDiff.empty freshOrigin) := by
@@ -331,7 +368,7 @@ theorem sim_downBit (hfresh : ∀ P, (ps.fresh P).length = 126) {w : Walker Node
       unfold TW.downBit
       rw [if_pos ⟨by rw [hnil]; rfl, rfl⟩]
     refine ⟨hp'wf, by rw [hp'a, hposd], ?_, ?_, ?_, ?_, ?_, ?_, h.norecon, by rw [hcprd]; exact h.cpr,
-      by rw [hlogd]; exact h.outs⟩
+      by rw [hlogd]; exact h.outs, h.nofix, ?_⟩
     · rw [hstore]; unfold havoc; rw [if_neg (by simp)]; exact h.root
     · show (_ :: w.stack) = [] ↔ _
       rw [hposd]; simp [hpar, k0]
@@ -350,6 +387,10 @@ theorem sim_downBit (hfresh : ∀ P, (ps.fresh P).length = 126) {w : Walker Node
       rw [hstk] at hsp'
       simp only [List.mem_singleton] at hsp'
       rw [hsp']; exact fresh_page_counters _ _
+    · intro sp hsp'
+      rw [hstk] at hsp'
+      simp only [List.mem_singleton] at hsp'
+      rw [hsp']; exact fresh_page_diffok H ps []
   · have hne := sim_pos_ne (w := w) hd
     have hdepth : 1 ≤ w.position.depth := by rw [hdep]; exact List.length_pos_iff.mpr hne
     have hroot : w.position.isRoot = false := by unfold Pos.isRoot; simp; omega
@@ -383,7 +424,7 @@ theorem sim_downBit (hfresh : ∀ P, (ps.fresh P).length = 126) {w : Walker Node
         unfold TW.downBit
         rw [if_pos ⟨h6, rfl⟩]
       refine ⟨hp'wf, by rw [hp'a, hposd], ?_, ?_, ?_, ?_, ?_, ?_, h.norecon, by rw [hcprd]; exact h.cpr,
-      by rw [hlogd]; exact h.outs⟩
+      by rw [hlogd]; exact h.outs, h.nofix, ?_⟩
       · rw [hstore]; unfold havoc; rw [if_neg (by simp)]; exact h.root
       · show (StackPage.new (P ++ [c]) (ps.freshPage (P ++ [c])) PageDiff.empty freshOrigin :: top :: rest) = [] ↔
           (a.downBit (cfgOf H ps w.parentPage) true b).pos.length ≤ 6 * k0 w.parentPage
@@ -430,6 +471,10 @@ theorem sim_downBit (hfresh : ∀ P, (ps.fresh P).length = 126) {w : Walker Node
         rcases List.mem_cons.mp hsp' with e | hsp''
         · rw [e]; exact fresh_page_counters _ _
         · exact h.counters sp (by rw [hst]; exact hsp'')
+      · intro sp hsp'
+        rcases List.mem_cons.mp hsp' with e | hsp''
+        · rw [e]; exact fresh_page_diffok H ps _
+        · exact h.diffs sp (by rw [hst]; exact hsp'')
     · -- inside the page
       have hdip : ¬ w.position.depthInPage = DEPTH := by
         rw [depthInPage_eq _ hdepth, hdep]; unfold specR DEPTH; omega
@@ -441,7 +486,7 @@ theorem sim_downBit (hfresh : ∀ P, (ps.fresh P).length = 126) {w : Walker Node
         unfold TW.downBit
         rw [if_neg (by intro hh; exact h6 hh.1)]
       refine ⟨hp'wf, by rw [hp'a, hposd], by rw [hstore]; exact h.root, ?_, ?_, h.chain, ?_, h.counters, h.norecon,
-        by rw [hcprd]; exact h.cpr, by rw [hlogd]; exact h.outs⟩
+        by rw [hcprd]; exact h.cpr, by rw [hlogd]; exact h.outs, h.nofix, h.diffs⟩
       · show w.stack = [] ↔ _
         rw [hst, hposd]
         simp only [List.length_append, List.length_singleton, false_iff, reduceCtorEq]
